@@ -119,6 +119,50 @@ Theorem C09_prefix_ltrim_refuted :
 Proof. exact ltrim_pre_breaks. Qed.
 Print Assumptions C09_prefix_ltrim_refuted.
 
+(* (6) removing a whole collection, as the code does it around RangeDeleteNum (5000): key-by-key deletes of what the
+   range scan returns up to RangeDeleteNum elements, one DeleteRange over [start key, stop key) above.  For ALL sizes
+   — every size takes one of the two ways — exactly the element keys of the collection's generation are removed
+   (hashes: the two independent size tests of hDeleteAll; sets: sDelete's if/else; the clear functions of Map.v are
+   defined with these and RepS / the refinement are proved over them) *)
+Theorem C09_hash_clear_removes_exactly_the_generation : forall (V : Type) (size v : Z) (es : list (vkey * V)),
+  NoDup (map fst es) -> clear_elems_tests size v es = drop_gen v es.
+Proof. exact @clear_elems_tests_exact. Qed.
+Print Assumptions C09_hash_clear_removes_exactly_the_generation.
+
+Theorem C09_set_clear_removes_exactly_the_generation : forall (V : Type) (size v : Z) (es : list (vkey * V)),
+  NoDup (map fst es) -> clear_elems_else size v es = drop_gen v es.
+Proof. exact @clear_elems_else_exact. Qed.
+Print Assumptions C09_set_clear_removes_exactly_the_generation.
+
+(* the end key of the range is the generation's STOP key; with the start key in its place the range is empty and
+   nothing is removed (zRemAll computes the end of the member-key range with zEncodeStopSetKey) *)
+Theorem C09_delete_range_to_the_stop_key : forall (V : Type) (v : Z) (es : list (vkey * V)),
+  delete_range (BStart v) (BStop v) es = drop_gen v es /\ delete_range (BStart v) (BStart v) es = es.
+Proof. intros V v es. split; [apply delete_range_exact|apply delete_range_to_start_deletes_nothing]. Qed.
+Print Assumptions C09_delete_range_to_the_stop_key.
+
+(* zRemAll above RangeDeleteNum members: the two DeleteRange calls (score index, member keys) keep the invariant,
+   the member <-> score-index bijection included *)
+Theorem C09_zset_range_clear_keeps_invariant : forall (compact : bool) (clock : Z) (z : zcoll) (m : cmeta),
+  RepZ compact clock z -> c_meta (z_c z) = Some m ->
+  RepZ compact clock {| z_c := Build_coll None (delete_range (BStart (cm_ver m)) (BStop (cm_ver m)) (c_elems (z_c z)));
+                        z_index := zidx_delete_range (BStart (cm_ver m)) (BStop (cm_ver m)) (z_index z) |}.
+Proof. exact zrange_clear_rep. Qed.
+Print Assumptions C09_zset_range_clear_keeps_invariant.
+
+(* lDelete: DeleteRange [key head, key tail) or the key-by-key loop over [key head, key tail], then the key of tail:
+   exactly the element keys head..tail of the generation, for all sizes *)
+Theorem C09_list_clear_removes_head_to_tail : forall (size v head tail : Z) (es : list (skey * bytes)),
+  NoDup (map fst es) -> head <= tail -> lclear_elems size v head tail es = ldrop_range v head tail es.
+Proof. exact lclear_elems_exact. Qed.
+Print Assumptions C09_list_clear_removes_head_to_tail.
+
+(* a gap between the two size tests (`<` and `>`) keeps every field key of a hash of exactly RangeDeleteNum fields *)
+Theorem C09_size_test_gap_refuted : forall (V : Type) (v : Z) (es : list (vkey * V)),
+  clear_elems_gap range_delete_num v es = es.
+Proof. exact @clear_gap_keeps_everything. Qed.
+Print Assumptions C09_size_test_gap_refuted.
+
 (* ---------- non-vacuity ---------- *)
 (* a reachable non-trivial state: SADD with a repeated member, HMSET with a repeated field, ZADD with a
    repeated member, pushes and a trim, under wait_compact with a clear + re-create in between *)
